@@ -3277,6 +3277,18 @@ class BatchDataset(Dataset):
                 if item < 0:
                     raise IndexError(item - len(self))
             input_index = item * self.batch_size
+            if self.drop_last:
+                # An incomplete last batch does not exist. Check this before
+                # the examples are loaded, otherwise the first examples of
+                # the incomplete batch are evaluated and thrown away (e.g.
+                # when a second batch stage probes beyond the last batch).
+                try:
+                    input_length = len(self.input_dataset)
+                except TypeError:
+                    pass  # no length, e.g. CycleDataset
+                else:
+                    if input_index + self.batch_size > input_length:
+                        raise IndexError(item)
             current_batch = []
             for i in range(self.batch_size):
                 try:
